@@ -554,4 +554,139 @@ func init() {
 		vt.WaitIdle()
 		e.takeFinalCounts()
 	})
+
+	// tuneshrink: the pool is warmed up to its full size (every worker idle, none expiring), then
+	// TunePool lowers the concurrency while jobs are being dispatched: a worker that TunePool retires
+	// is one it took out of the idle list itself, never one the dispatcher has just popped for a job
+	// (C01, C05, C18); the same with two TunePool callers at once (C02: the limit ends at a value
+	// somebody asked for).
+	registerFamily("tuneshrink", []string{"C01", "C02", "C03", "C05", "C18"}, func(e *env) {
+		r := vt.Rand()
+		e.kind = e.p("kind", r.Intn(3))
+		e.conc = e.p("conc", 3+r.Intn(4))
+		e.ratio = 100
+		e.mkWorker()
+		q := e.bind(pick(r, qFifo, qPrio))
+		for i := 0; i < e.conc; i++ {
+			e.add(q, 0, oOK, true, "")
+		}
+		vt.WaitIdle() // conc worker functions at their gates: conc pool goroutines exist
+		e.openGates()
+		e.lifecycle("WaitUntilFinished", 0)
+		vt.WaitIdle()
+		var jn joiner
+		n1, n2 := 1+r.Intn(2), 1+r.Intn(e.conc)
+		jn.goClient("tuner", func() {
+			for k := r.Intn(4); k > 0; k-- {
+				vt.Yield()
+			}
+			e.lifecycle("TunePool", n1)
+		})
+		two := r.Intn(3) == 0
+		gated := r.Intn(2) == 0
+		// directed third: the second TunePool (a higher limit than the first one's) is held right
+		// before it stores its value, until the first has taken effect and the worker has filled it
+		directed := two && gated && r.Intn(2) == 0
+		tuner2, on := -1, directed
+		if directed {
+			e.p("directed", 1)
+			n1, n2 = 1, 2
+			vt.Hold(func(tid, site int, kind string) bool {
+				return on && tid == tuner2 && (kind == "store" || kind == "swap") && strings.HasPrefix(siteName(site), "worker.TunePool/w.concurrency.")
+			})
+		}
+		if two {
+			e.p("tuners", 2)
+			jn.goClient("tuner2", func() {
+				tuner2 = vt.Cur().ID
+				for k := r.Intn(4); k > 0 && !directed; k-- {
+					vt.Yield()
+				}
+				e.lifecycle("TunePool", n2)
+			})
+		}
+		nj := 2 + r.Intn(4)
+		jn.goClient("producer", func() {
+			for i := nj; i > 0; i-- {
+				e.add(q, 0, oOK, gated, "")
+				if r.Intn(2) == 0 {
+					vt.Yield()
+				}
+			}
+		})
+		if directed {
+			vt.WaitIdle() // the first TunePool is in effect, one job sits at its gate, the rest are pending
+			on = false
+		}
+		jn.wait()
+		if two {
+			if c := e.w.NumConcurrency(); c != n1 && c != n2 {
+				e.notes = append(e.notes, fmt.Sprintf("TUNE: TunePool(%d) and TunePool(%d) both returned; NumConcurrency reports %d", n1, n2, c))
+			}
+		}
+		if gated {
+			// at rest min(jobs, limit) worker functions sit at their gates, whatever order the
+			// TunePool calls took effect in
+			vt.WaitIdle()
+			limit, got := e.w.NumConcurrency(), 0
+			for _, s := range e.subs {
+				if len(s.tEnter) > len(s.tExit) {
+					got++
+				}
+			}
+			want := nj
+			if limit < want {
+				want = limit
+			}
+			if got < want && limit <= e.conc { // more than the limit may still be in flight from before the shrink (C02 judges that)
+				e.notes = append(e.notes, fmt.Sprintf("SATURATION: after TunePool under load: %d worker functions in flight at rest, %d jobs, limit %d", got, nj, limit))
+			}
+		}
+		e.drain()
+	})
+
+	// lenwindow: directed. A client reading NumPending is held inside the queue's Len() after its
+	// first step while the worker dequeues and finishes jobs and another is submitted; whatever
+	// Len() then returns lies within the bounds (never negative, never above what was accepted) (C17).
+	registerFamily("lenwindow", []string{"C17", "C03"}, func(e *env) {
+		r := vt.Rand()
+		e.kind = e.p("kind", r.Intn(3))
+		e.conc = e.p("conc", 1+r.Intn(2))
+		e.mkWorker()
+		q := e.bind(pick(r, qFifo, qPrio))
+		e.lifecycle("PauseAndWait", 0)
+		for i := 2 + r.Intn(3); i > 0; i-- {
+			e.add(q, r.Intn(2), oOK, false, "")
+		}
+		reader, first, on := -1, 0, true
+		vt.Hold(func(tid, site int, kind string) bool {
+			if tid != reader {
+				return false
+			}
+			fn := siteFunc(site)
+			if fn != "Queue.Len" && fn != "PriorityQueue.Len" {
+				first = 0
+				return false
+			}
+			if first == 0 {
+				first = site
+			}
+			return on && site != first
+		})
+		var jn joiner
+		jn.goClient("reader", func() {
+			reader = vt.Cur().ID
+			e.samples = append(e.samples, sample{now(), "q.pending", e.qs[q].NumPending(), q})
+		})
+		vt.WaitIdle() // the reader sits inside Len, past its first step (or has returned)
+		jn.goClient("actor", func() {
+			e.lifecycle("Resume", 0)
+			vt.Yield()
+			e.add(q, 0, oOK, false, "")
+		})
+		vt.WaitIdle() // the actor and the worker have gone as far as the held reader lets them
+		on = false
+		jn.wait()
+		e.drain()
+	})
 }
